@@ -217,6 +217,7 @@ func matchApp(pat, appl *sx, binders []*sx) map[string]*sx {
 }
 
 type instCtx struct {
+	funSort   map[string]string // declared function -> result sort text
 	splits    []string // guards of instances that mention a skolem: case-split candidates
 	splitSeen map[string]bool
 	apps      map[string][]*sx // spec-function applications seen in the query, by symbol
@@ -427,6 +428,11 @@ func (ic *instCtx) collectTerms(f *sx, bound map[string]bool) {
 			ic.appSeen[k] = true
 			ic.apps[h] = append(ic.apps[h], f)
 		}
+		// a ground application of an uninterpreted spec function is a candidate for binders
+		// of its result sort (other than the index / reference sorts handled above)
+		if rs, ok := ic.funSort[h]; ok && rs != sortBV64Text && rs != "Ref" && rs != "Bool" {
+			ic.addCand(rs, f)
+		}
 	}
 	for _, c := range f.list {
 		ic.collectTerms(c, bound)
@@ -467,6 +473,12 @@ func instantiateObligation2(text string, maxPerQ int) (string, int, []string) {
 		return "", 0, nil
 	}
 	ic := &instCtx{cands: map[string][]*sx{}, candSeen: map[string]bool{}, maxPerQ: maxPerQ, apps: map[string][]*sx{}, appSeen: map[string]bool{}, splitSeen: map[string]bool{}}
+	ic.funSort = map[string]string{}
+	for _, f := range forms {
+		if f.head() == "declare-fun" && len(f.list) == 4 {
+			ic.funSort[f.list[1].atom] = f.list[3].String()
+		}
+	}
 	ic.addCand(sortBV64Text, atom("#x0000000000000000"))
 	// 1. the goal
 	var goal *sx
